@@ -428,6 +428,7 @@ impl Monitor for C11 {
     fn streams(&self, tier: Tier) -> Vec<StreamSpec> {
         let mut s = tlv_streams(tier, 10_000);
         s.push(stream("c11-headers", tier.n(30, 300_000, 10_000_000)));
+        s.push(stream("c11-owned-queue", tier.n(10, 60_000, 2_000_000)));
         if tier != Tier::Miri {
             s.push(spec::engine::exhaustive("c11-huge", 12));
         }
@@ -458,6 +459,47 @@ impl Monitor for C11 {
                 Some(Ok((Some(Ok((ka, va))), Some(Ok((0, vb)))))) if ka == k && va == vec![0xAA] && vb.is_empty() => rec.class("oracle:multi-GiB-section", || format!("{} bytes", size)),
                 Some(other) => rec.violation("item-differs:from-slice", format!("huge:{}:{}", idx, seed), "huge-section".into(), format!("section of {} bytes starting with TLV ({}, [0xAA]) followed by zero bytes: the first two items are {:?}", size, k, other)),
             }
+            return;
+        }
+        if stream == "c11-owned-queue" {
+            // headers are parsed first and their owned copies are walked later, one after the other,
+            // each dropped before the next is made (so the allocator hands out the same block
+            // again): sections of one length at one address with different TLV boundaries, and no
+            // parse in between
+            let s = tlv_case(if idx % 2 == 0 { "tlv-wf" } else { "tlv-rand" }, idx, seed);
+            if s.len() > 4096 {
+                return;
+            }
+            let mut sections = spec::sib::tlv_history(&s, idx);
+            sections.truncate(5);
+            let images: Vec<Vec<u8>> = sections
+                .iter()
+                .map(|sec| {
+                    let mut b = spec::v2::SIG.to_vec();
+                    let len = 12 + sec.len();
+                    b.extend_from_slice(&[0x21, 0x11, (len >> 8) as u8, len as u8, 10, 0, 0, 1, 10, 0, 0, 2, 0, 80, 1, 187]);
+                    b.extend_from_slice(sec);
+                    b
+                })
+                .collect();
+            let parsed: Vec<Option<v2::Header<'_>>> = images.iter().map(|b| guard(|| v2::Header::try_from(&b[..]).ok()).ok().flatten()).collect();
+            for round in 0..2 {
+                for (i, h) in parsed.iter().enumerate() {
+                    let Some(h) = h else { continue };
+                    let case = || enc_case("v2", &images[i]);
+                    rec.case(hash_bytes(&images[i]) ^ round, sections[i].len() >= 3);
+                    if round == 0 {
+                        let o = h.to_owned();
+                        let ob = o.as_bytes();
+                        if ob.len() == images[i].len() {
+                            judge_iter(o.tlvs(), &ob[28..], "queued-owned-header.tlvs()", &case, rec);
+                        }
+                    } else {
+                        judge_iter(h.tlvs(), &images[i][28..], "queued-header.tlvs()", &case, rec);
+                    }
+                }
+            }
+            rec.class("oracle:owned-copies-walked-in-a-queue", || format!("{} sections of {} bytes", sections.len(), s.len()));
             return;
         }
         if stream == "c11-headers" {
